@@ -84,6 +84,19 @@ fn check_independent(items: &[&str], reqs: &[Req], l: &mut Local) {
     use vh::oracle::netspec as ns;
     let e = vh::netsweep::build_engine(items, &[], false, true);
     let store = ns::std_res_spec();
+    // second subject: an empty blocker that receives the rules one by one (`Blocker::add_filter`)
+    let incremental = vh::util::catch(|| {
+        use adblock::blocker::{Blocker, BlockerOptions};
+        let mut b = Blocker::new(vec![], &BlockerOptions { enable_optimizations: false });
+        for r in items {
+            if let Ok(f) = adblock::filters::network::NetworkFilter::parse(r, true, Default::default()) {
+                let _ = b.add_filter(f);
+            }
+        }
+        b
+    })
+    .ok();
+    let res_storage = adblock::resources::ResourceStorage::from_resources(vh::net::std_resources());
     for rq in reqs {
         let option_of = |r: &str| r.rsplit_once('$').and_then(|(_, o)| o.split(',').find_map(|x| x.strip_prefix("redirect=").or_else(|| x.strip_prefix("redirect-rule=")))).map(|s| s.to_string());
         let cands: Vec<String> = items.iter().filter(|r| !r.starts_with("@@") && applies(r, rq)).filter_map(|r| option_of(r)).collect();
@@ -92,6 +105,20 @@ fn check_independent(items: &[&str], reqs: &[Req], l: &mut Local) {
         let got = vh::util::catch(|| e.check_network_request(&rq.req).redirect);
         l.compared += 1;
         l.transitions += 1;
+        if let Some(b) = &incremental {
+            let got_b = vh::util::catch(|| b.check(&rq.req, &res_storage).redirect);
+            l.compared += 1;
+            l.transitions += 1;
+            match got_b {
+                Ok(g) if exp.accepts(&g) => {}
+                other => l.mismatch(vh::Mismatch {
+                    sig: "c13.redirect.rule-applicability.rules-added-one-by-one".into(),
+                    what: format!("rules {:?} added with Blocker::add_filter, request ({}, {}, {}): option semantics give {:?}, blocker {:?}", items, rq.url, rq.source, rq.ty, exp, other),
+                    case: serde_json::json!({"rules": items, "hosts": [], "tags": [], "url": rq.url, "source": rq.source, "type": rq.ty, "resources": true, "independent": true}),
+                    size: (items.len() * 10000 + rq.url.len()) as u64,
+                }),
+            }
+        }
         match got {
             Ok(g) if exp.accepts(&g) => {}
             other => l.mismatch(vh::Mismatch {
